@@ -363,6 +363,14 @@ def r4_reemission(ctx, rule):
         tok = [nm for nm, l_ in stores.items() if any(v is not None and isinstance(v, ast.Call) and call_name(v) == 're.findall' for s_, v in l_)]
         probs = [nm for nm, l_ in stores.items() if any(v is not None and "split('\\t')[1]" in U(v) for s_, v in l_)]
         line_loops = [x for x in walk_local(fn) if isinstance(x, ast.For) and U(x.iter) in ("grammar.split('\\n')", 'grammar.splitlines()')]
+        # a loop over a slice of the line list drops lines by position, whatever they contain
+        sliced = [x for x in walk_local(fn) if isinstance(x, ast.For) and isinstance(x.iter, ast.Subscript) and isinstance(x.iter.slice, ast.Slice)
+                  and U(x.iter.value) in ("grammar.split('\\n')", 'grammar.splitlines()')]
+        if sliced:
+            ctx.bad(rule, q, 'filter loops over %s' % U(sliced[0].iter), 'every line of the grammar is a candidate: a grammar.txt without a '
+                    'final newline (or with one, depending on the slice) loses a base structure that passes every requested filter',
+                    None, sliced[0])
+            continue
         if not ems or len(tok) != 1 or len(probs) != 1 or not line_loops:
             ctx.unk(rule, q, 're-emission not recognised (accumulator %s, token variables %s, probability variables %s)' % (acc, tok, probs))
             continue
